@@ -3,7 +3,7 @@ import json, re
 from .. import core
 from . import stackcommon as sc
 
-EMITS = set("S V Q G A P PM R X E B ST CB TXT RACE VR NS STORM STORMA STALL PSPLIT LSPLIT SRPMANY".split())
+EMITS = set("S V Q G A P PM R X E B ST CB TXT RACE VR NS STORM STORMA STALL PSPLIT LSPLIT NSI RSC DUPW SRPMANY".split())
 
 ADV_SETUP = ["wrongcode", "wrongproof", "noproof", "a0", "aN", "a2N", "aempty", "m5first", "start", "m3wrong", "m5zerokey",
              "m5randkey", "badstep", "badmethod", "garbage", "aNforged", "a0forged", "aemptyforged", "wrongcodezero", "m5zeroempty", "m5emptyhkdf"]
@@ -90,6 +90,9 @@ def gen_c01_shared_addr(rng, tier):
         rng.shuffle(pool)
         ops += pool[:rng.randrange(2, 6)] + ["CB", "ST"]
         mk(cases, "shared-addr", ops, {"adv": ["a"]})
+    # the unverified connection's requests are already with the server (behind a slow POST /identify) when the other connection,
+    # same remote ip:port, completes pair-verify
+    mk(cases, "shared-addr", ["N:h", "S:h:c0:ok", "NSI:c0:2.9:%d" % (3 if tier == "quick" else 12), "CB", "ST"], {"adv": ["a"]})
     return cases
 
 
@@ -110,6 +113,11 @@ def oracle_c01(c, obs):
             if refusals.setdefault(ep, (b, op)) [0] != b:
                 return "refusals on %s differ with what was asked for (%s vs %s): a refused request discloses which attributes exist / what they permit: %s | %s" % (
                     ep, refusals[ep][1], op, bytes.fromhex(refusals[ep][0]).decode("utf-8", "replace")[:80], bytes.fromhex(b).decode("utf-8", "replace")[:80])
+        if p[0] == "NSI":
+            if not (tok.startswith("NSI=refused") or tok == "NSI=unsupported"):
+                return ("a connection that never pair-verified had its write served after ANOTHER connection with the same remote ip:port (to another "
+                        "address of the accessory) completed pair-verify: verification carried over (%s)" % tok)
+            continue
         if p[0] == "PSPLIT":
             if not tok.startswith("PSPLIT=204/470,canary=0"):
                 return "a subscription request in flight while an unverified connection was refused: %s (expected 204 for the controller, 470 without attribute values for the other)" % tok[7:]
@@ -169,6 +177,10 @@ def gen_c02(rng, tier):
                  ["V:a:k0:ok", "R:a:k0:remove", "ST", "N:b", "S:b:k0:replayok", "ST"],
                  ["N:b", "S:b:k1:start", "S:b:k1:m3", "N:c", "S:c:k0:replayok", "ST", "S:b:k1:m5", "ST"]):
         mk(cases, "replay", ["N:a", "S:a:k0:ok", "ST"] + tail)
+    # ... and on the SAME connection (it is still open): after the exchange ended, start requests until one is accepted, then the
+    # recorded proof and key exchange again -- with and without the pairing removed in between
+    for mid in ([], ["N:v", "V:v:k0:ok", "R:v:k0:remove", "ST"]):
+        mk(cases, "replay-same-conn", ["N:a", "S:a:k0:ok", "ST"] + mid + ["S:a:k0:replayok", "ST", "S:a:k0:replayok", "ST", "S:a:k0:start", "S:a:k0:replayok", "ST"])
     # controller identities of any length the store can keep (up to 122 bytes), also two that share a long prefix: what is
     # stored is exactly the name delivered, under exactly the key delivered with it
     for L in ([1, 36, 64, 65, 100, 120, 121, 122] if tier == "quick" else list(range(1, 123, 3)) + [119, 120, 121, 122]):
@@ -848,6 +860,12 @@ def gen_c10(rng, tier):
             ops = ["N:p", "S:p:c0:ok", "N:c0", "V:c0:c0:ok", "N:c1", "V:c1:c0:ok", "N:c2", "V:c2:c0:ok", "P:c0:2.9:-:1"] + pre + ["P:c1:2.9:-:0",
                    ("P:c2:2.9:true:-" if third else "L:2.9:true"), "W", "E:c0", "E:c1", "E:c2", "P:c1:3.12:-:0", "L:3.12:%s" % sc.num(25), "W", "E:c0", "E:c1"]
             mk(cases, "unsub-by-other", ops)
+    # two controllers write the same new value to 40 characteristics at the same time, 150 (thorough: 600) rounds; a third one is
+    # subscribed: one change, one event
+    for i in range(1 if tier == "quick" else 3):
+        mk(cases, "same-write-from-two", ["N:p", "S:p:c0:ok", "N:c0", "V:c0:c0:ok", "N:c1", "V:c1:c0:ok", "N:c2", "V:c2:c0:ok", "DUPW:c0:c1:c2:%d" % (150 if tier == "quick" else 600)],
+           opts="nacc=40")
+        cases[-1]["noretry"] = True
     # "ev": false as the first thing a connection says about events; later it subscribes
     ops = ["N:p", "S:p:c0:ok", "N:c0", "V:c0:c0:ok", "N:c1", "V:c1:c0:ok", "P:c0:2.9:-:0", "P:c1:2.9:-:1", "L:2.9:true", "W", "E:c0", "E:c1",
            "P:c0:2.9:-:1", "L:2.9:false", "W", "E:c0", "E:c1"]
@@ -922,6 +940,10 @@ def oracle_c10(c, obs):
         tok = None
         if p[0] in EMITS:
             _, tok = next(it)
+        if p[0] == "DUPW":
+            if not tok.startswith("DUPW=ok"):
+                return "two controllers wrote the same new value at the same time: the subscriber's events per round are not one per changed characteristic (%s)" % tok[5:]
+            continue
         if p[0] == "STORM":
             if tok != "STORM=ok":
                 return "the application changed a value thousands of times while the subscriber kept sending requests: " + tok[6:].replace("-", " ")
@@ -1043,6 +1065,9 @@ def gen_c13(rng, tier):
             ops = ["N:h", "S:h:c0:ok", "N:x", "V:x:c0:ok", "R:x:odd:%s" % k, "N:q", "V:q:odd:%s" % vv, "K:q",
                    "N:y", "S:y:n2:ok", "N:z", "V:z:n2:ok", "G:z:2.9", "A:z", "P:z:2.9:true:-", "ST", "A:x", "P:x:2.9:false:-"]
             mk(cases, "robust", ops, {"state": "verified"})
+    # directed: a peer resets its connection while its request is being handled and connects again from the same port; its next
+    # (correct) request must be answered
+    mk(cases, "robust", ["N:h", "S:h:c0:ok", "RSC:%d" % (4 if tier == "quick" else 20), "N:y", "S:y:n2:ok", "N:z", "V:z:n2:ok", "G:z:2.9", "A:z", "P:z:2.9:true:-", "ST"], {"state": "abandoned"})
     # directed: the first request of a verified connection that mentions events ends a subscription it never made
     for cid in ["2.9", "3.12", "4.13"]:
         ops = ["N:h", "S:h:c0:ok", "N:x", "V:x:c0:ok", "P:x:%s:-:0" % cid, "G:x:2.9", "PM:x:%s~-~0+2.9~-~0" % cid, "P:x:2.9:-:1", "P:x:2.9:-:0",
@@ -1073,6 +1098,9 @@ def oracle_c13(c, obs):
             if "closed" in body.split("/"):
                 # plaintext sent by the adversary op X on an encrypted connection legitimately ends the connection
                 return "request %s was answered by dropping the connection (handler panic?) instead of an error response: %s" % (op[:60], tok[:60])
+    for op, tok in pairs:
+        if op.startswith("RSC:") and not (tok.startswith("RSC=ok") or tok == "RSC=unsupported"):
+            return "a peer that reset its connection while its request was handled and connected again from the same port got no answer to a correct pair-setup start (%s)" % tok
     last = dict((o, t) for o, t in pairs)
     if last.get("S:y:n2:ok", "") != "S=st2/st4/st6[M2okM6ok]" or not last.get("V:z:n2:ok", "").startswith("V=st2/st4[") or not last.get("G:z:2.9", "").startswith("G=200"):
         return "after the malformed input a correct handshake on a new connection no longer succeeds: %s %s %s" % (last.get("S:y:n2:ok"), last.get("V:z:n2:ok"), last.get("G:z:2.9", "")[:40])
